@@ -22,14 +22,15 @@ type Manual[T any] struct {
 }
 
 type manualShard[T any] struct {
-	mu      sync.Mutex
-	hashes  []uint64
-	classes map[string]struct{}
-	cases   int64
-	evals   int64
-	viol    []violation
-	first   *item[T]
-	last    *item[T]
+	mu        sync.Mutex
+	hashes    []uint64
+	classes   map[string]struct{}
+	cases     int64
+	evals     int64
+	viol      []violation
+	first     *item[T]
+	last      *item[T]
+	compactAt int
 }
 
 // Begin starts a manual clause. check is used for replay only (and is normally the same function
@@ -88,8 +89,12 @@ func (m *Manual[T]) Record(seq int64, c T, out Outcome) {
 	}
 	if out.Nontrivial {
 		s.hashes = append(s.hashes, h)
-		if len(s.hashes) >= 1<<20 {
+		if s.compactAt == 0 {
+			s.compactAt = 1 << 20
+		}
+		if len(s.hashes) >= s.compactAt {
 			s.hashes = uniq(s.hashes)
+			s.compactAt = max(1<<20, 2*len(s.hashes))
 		}
 	}
 	if out.Fail != "" && len(s.viol) < 16 {
